@@ -106,10 +106,17 @@ def ops_in(prog: Program, f: Func):
     return out
 
 
-def all_ops(prog: Program):
+def all_ops(prog: Program, normalise=True):
+    """operations of every function; with normalise the functions are analysed with same-module helpers inlined and
+    work-set aliases removed (ops of a helper then also appear in its callers, which is what the path rules need)"""
+    from .inline import normalised
+
     out = []
     for f in prog.funcs.values():
-        out.extend(ops_in(prog, f))
+        g = f
+        if normalise and f.module.name.startswith(('dawgie.pl.schedule', 'dawgie.pl.farm', 'dawgie.pl.promotion', 'dawgie.pl.dag')):
+            g = normalised(prog, f)
+        out.extend(ops_in(prog, g))
     return out
 
 
@@ -536,6 +543,9 @@ def release_analysis(prog: Program, f: Func, atoms=ATOMS, others_idle=False, no_
     outcome[rho] = {'released': set(kinds), 'untodo': bool, 'paths': n, 'problems': [...]}
     Only paths that entered the (D, tau) iteration are considered.
     """
+    from .inline import normalised
+
+    f = normalised(prog, f)
     # the loop over queued jobs: for J in <something over que>
     outer = None
     for n in f.own_nodes():
